@@ -116,7 +116,7 @@ struct TreeWorld : World {
         }
         if (prop == "C01" || prop == "C12" || prop == "C11" || prop == "C15" || prop == "C14")
             op.k = wpick(r, {{40, T_PUT}, {22, T_GET}, {20, T_REMOVE}, {2, T_CLEAR}, {5, T_SIZE}, {5, T_MIN}, {5, T_MAX},
-                             {(prop == "C11" || prop == "C15" || prop == "C14") ? 6 : 0, T_WALK},
+                             {(prop == "C11" || prop == "C15" || prop == "C14" || prop == "C12") ? 6 : 0, T_WALK},
                              {(prop == "C11" || prop == "C15" || prop == "C14") ? 6 : 0, T_NEAREST},
                              {(prop == "C14") ? 3 : 0, T_DEBUG}, {(prop == "C14") ? 6 : 0, T_LOCKEDWALK}});
         else if (prop == "C02")
@@ -133,7 +133,7 @@ struct TreeWorld : World {
         case T_REMOVE: op.d = str ? (int)r.below(2) : 0; break;
         case T_LOCKEDWALK: op.d = (int)r.below(2); break;
         case T_WALK:
-            op.a = (prop == "C03" || (prop == "C04" && r.chance(1, 2))) ? r.pick(std::vector<int>{1, 1, 1, 2, 3, 100, 126, 127, 128, 129, 254, 255, 256, 257, 300}) : 1;
+            op.a = (prop == "C03" || ((prop == "C04" || prop == "C11" || prop == "C12" || prop == "C15") && r.chance(1, 2))) ? r.pick(std::vector<int>{1, 1, 1, 2, 3, 100, 126, 127, 128, 129, 254, 255, 256, 257, 300}) : 1;
             op.d = (int)r.below(2); break;
         case T_ABANDON:
             op.a = r.range(1, 4); op.d = (int)r.below(2);
@@ -198,6 +198,7 @@ struct TreeWorld : World {
     void sut_destroy(Ctx &) override { if (t) { InSut s; t->free(t); } t = nullptr; }
     void sut_abandon() override { t = nullptr; }
     void *sut_mutex() override { return t ? t->qmutex : nullptr; }
+    bool sut_user_lock() override { InSutLock s; t->lock(t); return true; }
     void sut_force_unlock() override { InSutLock s; t->unlock(t); }
     void sut_probe(Ctx &) override { InSut s; size_t n; void *p = t->find_min(t, &n); free(p); }
 
@@ -381,6 +382,8 @@ struct TreeWorld : World {
         qtreetbl_obj_t o; memset(&o, 0, sizeof o);
         Bytes out; int cnt = 0;
         size_t guard = t->num * 2 + 8;
+        int fired_seen = sim_fault_fired(), retries = 0;
+        bool unfinished_at_entry = unfinished;
         walks_started++;
         if (sim_self() < 0) {
             if (t->root != last_root && last_root != nullptr) x.st.add("probe.root_changed_between_walks");
@@ -390,11 +393,17 @@ struct TreeWorld : World {
         for (;;) {
             if (limit >= 0 && cnt >= limit) { if (stopped) *stopped = true; return out; }
             bool more; TCALL(x, more = t->getnext(t, &o, newmem));
+            if (!more && newmem && sim_fault_fired() > fired_seen && retries < 1) {
+                // a step that reported ENOMEM must not have consumed the element: the client tries again with the same cursor
+                fired_seen = sim_fault_fired(); retries++; x.st.add("probe.walk_step_retried_after_enomem");
+                continue;
+            }
             if (!more) {
-                if (sim_fault_fired() > 0 && newmem) {
+                if (sim_fault_fired() > fired_seen && newmem) {
                     // the step reported failure (ENOMEM): the walk is over for the caller; bring the traversal state back to
                     // "no walk unfinished" with a complete fault-free walk so that the history stays comparable with the model
                     walk_failed = true;
+                    unfinished = unfinished_at_entry;     // the model is rolled back to its state before a failed operation
                     sim_fault_suspend(true);
                     qtreetbl_obj_t c; memset(&c, 0, sizeof c); size_t g2 = 0;
                     for (;;) { bool m2; TCALL(x, m2 = t->getnext(t, &c, false)); if (!m2 || ++g2 > guard) break; }
@@ -409,7 +418,7 @@ struct TreeWorld : World {
             enc(out, k); enc(out, v);
             if ((size_t)++cnt > guard) { sut_abandon(); x.fail("walk-mismatch", "result", "traversal does not end (more elements than keys)"); }
         }
-        unfinished = false;
+        if (!walk_failed) unfinished = false;
         out += "$";
         return out;
     }
